@@ -226,6 +226,10 @@ func (c *Ctx) Finish(verifDir string, seed int64, start time.Time, checkerCmd st
 	for k, v := range extra {
 		cov[k] = v
 	}
+	if c.Assumptions == nil {
+		c.Assumptions = []string{}
+	}
+	c.Assumptions = append(c.Assumptions, "go/packages loads the same sources the build compiles (build tags: default, GOOS/GOARCH of this machine)")
 	ev := map[string]interface{}{
 		"property_id": c.Prop,
 		"tier":        c.Tier,
